@@ -274,6 +274,19 @@ def check_dir(prog: Program, res: Result) -> None:
                     rs.append(c)
         ok = len(rs) == 1 and _flattens_edge_major(g.node, rs[0])
         res.ob(R, ok, g.qualname, "channels flattened edge-major (edge0.x, edge0.y, edge1.x, ...)", "the (edges, 2) axes are not flattened as edges*2", g.where)
+        # every field handed out went through that flatten step: one place produces the result (a second store / return, e.g. a
+        # shortcut for frames without animals, hands out the unflattened (edges, 2, H, W) layout when flatten_channels is on)
+        outs = [s_ for s_ in walk_function(g.node) if isinstance(s_, ast.Assign) and isinstance(s_.targets[0], ast.Subscript) and astq.const_value(s_.targets[0].slice) == "part_affinity_fields"] \
+            + [r_ for r_ in walk_function(g.node) if isinstance(r_, ast.Return) and r_.value is not None]
+        from ..core.cfg import CFG as _CFG
+        cfg_ = _CFG(g.node)
+        tests_ = {n_ for t_ in walk_function(g.node) if isinstance(t_, (ast.If, ast.IfExp)) and "flatten_channels" in norm(t_.test)
+                  for n_ in (cfg_.nodes_of(t_) if isinstance(t_, ast.If) else cfg_.stmt_nodes_containing(t_))}
+        for o_ in outs:
+            w_ = cfg_.must_pass([cfg_.entry], cfg_.nodes_of(o_), tests_)
+            res.ob(R, w_ is None, g.qualname, "the fields are handed out only after the flatten_channels decision",
+                   f"`{short(o_, 50)}` hands out part affinity fields on a path that never consults flatten_channels ({cfg_.path_str(w_) if w_ else ''}): with flatten_channels on, "
+                   "that path returns the (edges, 2, H, W) layout", f"{g.module.relpath}:{o_.lineno}")
         mm = [c for c, qq in prog.calls_in(g) if qq == f"{EM}:make_multi_pafs"]
         gp = [c for c, qq in prog.calls_in(g) if qq == f"{EM}:get_edge_points"]
         ok = len(mm) == 1 and len(gp) == 1
